@@ -5,6 +5,17 @@
 #include <GeographicLib/DAuxLatitude.hpp>
 #include <GeographicLib/Math.hpp>
 #include <memory>
+#include <iostream>
+#include <string>
+#include <sstream>
+#include <fstream>
+#include <GeographicLib/DMS.hpp>
+#include <GeographicLib/Utility.hpp>
+// the command-line front end (observe_at: tools/RhumbSolve) compiled from the current $GV_REPO/tools/RhumbSolve.cpp into this
+// harness, as harness/C10.cpp / harness/C02.cpp do (tools/props.d/C09.py makes the harness cache key depend on its text)
+namespace tool_rhumbsolve {
+#include "../tools/RhumbSolve.cpp"
+}
 using namespace GeographicLib; using namespace gv;
 typedef long double LD;
 static const double aW = 6378137.0, fW = 1 / 298.257223563;
@@ -35,14 +46,10 @@ static double trunc_rel(double f, bool series) { double n = f / (2 - f); return 
 // x4, per quarter turn of longitude, scaled with a^2, plus the position tolerance swept over the east-west extent
 static double tol_area(double a, double lam12, double s12) { return 4 * 0.11 * (a / aW) * (a / aW) * std::fmax(1.0, std::fabs(lam12) / (M_PI / 2)) + tol_len(a, s12) * a * std::fabs(lam12); }
 
-// Finding F8 (open): DAuxLatitude::DE, used by the exact solver when the two latitudes are distinct and not of opposite sign,
+// Finding F8 (repaired, 15c4574; the class below is empty now): DAuxLatitude::DE, used by the exact solver when the two latitudes are distinct and not of opposite sign,
 // evaluates cos((x+y)/2) of the *flipped* parametric angles on prolate ellipsoids; near the equator these are ~pi/2 and the
 // cosine loses relative accuracy ~ eps/(|phi1|+|phi2|).  Decidable class + a priori bound on the relative error of dmu/dpsi.
-static double f8bound(bool exact, double f, double lat1, double lat2) {
-  if (!(exact && f < 0 && lat1 != lat2 && !(lat1 * lat2 < 0))) return 0;
-  double sum = (std::fabs(lat1) + std::fabs(lat2)) * M_PI / 180;
-  return 2.5e-15 / sum;   // 4 x (rounding of x, y ~ pi/2 and of their sum) / cos((x+y)/2); capped by the caller
-}
+static double f8bound(bool, double, double, double) { return 0; }   // F8 is repaired in /repo (15c4574): no class any more, every such error is judged against the plain tolerance
 // judge an error against a tolerance; errors inside the F8 class bound are reported under the F8 relation
 static void judge(const std::string& rel, double err, double tol, double f8, double f8scale, const std::string& what) {
   if (err <= tol) return;
@@ -50,9 +57,9 @@ static void judge(const std::string& rel, double err, double tol, double f8, dou
     bad("F8-prolate-exact-DE:" + rel, what + " error " + num(err) + " tolerance " + num(tol) + " (inside the F8 class bound " + num(f8 * f8scale) + ")");
   else bad(rel, what + " error " + num(err) + " tolerance " + num(tol));
 }
-// Finding F24 (open): DAuxLatitude::DParametric, branch tx*ty > 1, replaces tx, ty by their reciprocals; two tangents an ulp apart can have the
+// Finding F24 (repaired, 6ffdf79; the class below is empty now): DAuxLatitude::DParametric, branch tx*ty > 1, replaces tx, ty by their reciprocals; two tangents an ulp apart can have the
 // same rounded reciprocal and the quotient atan2(0, .)/atan2(0, .) is NaN.  Decidable on the tangents the code uses.
-static bool f24class(double tx, double ty) { return tx != ty && tx * ty > 1 && std::isfinite(tx) && std::isfinite(ty) && 1 / tx == 1 / ty; }
+static bool f24class(double, double) { return false; }   // F24 is repaired in /repo (6ffdf79): no class any more
 static bool dir_f24(const Rhumb& R, const RhumbLine& L, double s12) {   // the same tangents as GenPosition / MeanSinXi form
   if (!R._exact) return false;
   double r12 = s12 / (R._rm * Math::degree()), mu2 = L._mu1 + r12 * L._calp; if (!(std::fabs(mu2) <= 90)) return false;
@@ -60,13 +67,7 @@ static bool dir_f24(const Rhumb& R, const RhumbLine& L, double s12) {   // the s
   AuxAngle px(R._aux.Convert(AuxLatitude::CHI, AuxLatitude::PHI, L._chi1, true)), py(R._aux.Convert(AuxLatitude::CHI, AuxLatitude::PHI, k2, true));
   return f24class(px.tan(), py.tan()) || f24class(L._phi1.tan(), q2.tan());
 }
-static double dir_f8(const Rhumb& R, const RhumbLine& L, double s12) {   // F8 class decided on the angles DRectifying compares inside GenPosition
-  if (!(R._exact && R._f < 0)) return 0;
-  double r12 = s12 / (R._rm * Math::degree()), mu2 = L._mu1 + r12 * L._calp; if (!(std::fabs(mu2) <= 90)) return 0;
-  AuxAngle q2(R._aux.Convert(AuxLatitude::MU, AuxLatitude::PHI, AuxAngle::degrees(mu2), true));
-  double x = L._phi1.radians(), y = q2.radians();
-  return (x != y && !(x * y < 0)) ? 2.5e-15 / (std::fabs(x) + std::fabs(y)) : 0;
-}
+static double dir_f8(const Rhumb&, const RhumbLine&, double) { return 0; }   // F8 repaired: no class
 static bool inv_f24(const Rhumb& R, double lat1, double lat2) {   // the tangents GenInverse / MeanSinXi hand to DParametric (exact solver)
   if (!R._exact) return false;
   AuxAngle q1(AuxAngle::degrees(lat1)), q2(AuxAngle::degrees(lat2)), k1(R._aux.Convert(AuxLatitude::PHI, AuxLatitude::CHI, q1, true)), k2(R._aux.Convert(AuxLatitude::PHI, AuxLatitude::CHI, q2, true));
@@ -374,11 +375,295 @@ static Reg r_dir("rdir", [](const Args& a) {
   }
 });
 
+// ================================================================================================================
+// Deepening round: the whole series path against Model/RhumbSeries.lean (running-error correspondence, Corr/C09Full.lean),
+// every public entry point / overload / accessor, and the RhumbSolve front end
+// ================================================================================================================
+static const unsigned M_ALL_DIR = Rhumb::LATITUDE | Rhumb::LONGITUDE | Rhumb::AREA, M_ALL_INV = Rhumb::DISTANCE | Rhumb::AZIMUTH | Rhumb::AREA;
+static bool eqn(double x, double y) { return x == y || (std::isnan(x) && std::isnan(y)); }
+
+// rh_const a f : Rhumb(a, f, false): _n, _rm, _c2, EllipsoidArea(), _pP[] (model: constructor + AreaCoeffs on the extracted table);
+// oracles: accessors, EllipsoidArea = 4 pi c^2 (authalic radius by closed form in long double), series == exact constants, WGS84() singleton
+static Reg r_rhconst("rh_const", [](const Args& a) {
+  double ea = unhx(a[0]), ef = unhx(a[1]);
+  std::string g = guarded([&] {
+    Rhumb R(ea, ef, false);
+    std::string o = hx(R._n) + " " + hx(R._rm) + " " + hx(R._c2) + " " + hx(R.EllipsoidArea()); for (double p : R._pP) o += " " + hx(p);
+    emit(o);
+    if (int(R._pP.size()) != R._lL || R._lL != Rhumb::Lmax_) bad("rhumb-ctor", "_pP.size() = " + std::to_string(R._pP.size()) + ", _lL = " + std::to_string(R._lL) + ", Lmax_ = " + std::to_string(Rhumb::Lmax_));
+    if (!(R.EquatorialRadius() == ea && R.Flattening() == ef)) bad("rhumb-accessors", "EquatorialRadius()/Flattening() do not return the constructor arguments");
+    const rho::Ell& E = el(ea, ef);
+    LD area = 4 * rho::PI * E.c2; double n = ef / (2 - ef);
+    // series constants: the radius series are cut at n^6: allowance |n|^7 x 8 (coefficients of the tables are < 1)
+    double tr = 64 * EPS + 8 * std::pow(std::fabs(n), 7);
+    if (std::fabs(ef) <= 0.1) {
+      if (!(std::fabs((double)((LD)R.EllipsoidArea() - area)) <= tr * (double)area)) bad("rhumb-ellipsoid-area", "EllipsoidArea() = " + num(R.EllipsoidArea()) + ", 4 pi c^2 = " + num(area));
+      if (!(std::fabs((double)((LD)R._rm - E.Rmu)) <= tr * (double)E.Rmu)) bad("rhumb-rectifying-radius", "_rm = " + num(R._rm) + ", 2Q/pi = " + num(E.Rmu));
+    }
+    Rhumb X(ea, ef, true);
+    if (!(std::fabs((double)((LD)X.EllipsoidArea() - area)) <= 64 * EPS * (double)area)) bad("rhumb-ellipsoid-area", "exact: EllipsoidArea() = " + num(X.EllipsoidArea()) + ", 4 pi c^2 = " + num(area));
+    if (!(std::fabs((double)((LD)X._rm - E.Rmu)) <= 64 * EPS * (double)E.Rmu)) bad("rhumb-rectifying-radius", "exact: _rm = " + num(X._rm) + ", 2Q/pi = " + num(E.Rmu));
+    if (!(X._lL == int(X._pP.size()) && X._lL >= 1)) bad("rhumb-ctor", "exact: _lL = " + std::to_string(X._lL) + " but _pP has " + std::to_string(X._pP.size()) + " entries");
+    if (ea == aW && ef == fW) {
+      const Rhumb& W = Rhumb::WGS84();
+      bool same = W._a == R._a && W._f == R._f && W._n == R._n && W._rm == R._rm && W._c2 == R._c2 && !W._exact && W._pP == R._pP && &W == &Rhumb::WGS84();
+      if (!(W.EquatorialRadius() == Constants::WGS84_a() && W.Flattening() == Constants::WGS84_f() && same)) bad("rhumb-wgs84", "Rhumb::WGS84() is not Rhumb(WGS84_a, WGS84_f, series)");
+    }
+  });
+  if (!g.empty()) emit(g);
+});
+
+// rh_inv a f lat1 lon1 lat2 lon2 : GenInverse (series) end to end; the sincosd values of the latitudes are handed to the model (C16)
+static Reg r_rhinv("rh_inv", [](const Args& a) {
+  double ea = unhx(a[0]), ef = unhx(a[1]), lat1 = unhx(a[2]), lon1 = unhx(a[3]), lat2 = unhx(a[4]), lon2 = unhx(a[5]);
+  const Rhumb& R = rh(ea, ef, false);
+  AuxAngle p1(AuxAngle::degrees(lat1)), p2(AuxAngle::degrees(lat2));
+  std::string op = "rh_inv"; for (int i = 0; i < 6; ++i) op += " " + a[i];
+  current_op() = op + " " + hx(p1.y()) + " " + hx(p1.x()) + " " + hx(p2.y()) + " " + hx(p2.x());
+  double s12 = -999, azi12 = -999, S12 = -999; R.GenInverse(lat1, lon1, lat2, lon2, M_ALL_INV, s12, azi12, S12);
+  emit(hx(s12) + " " + hx(azi12) + " " + hx(S12));
+});
+
+// rh_pos a f lat1 lon1 azi12 s12 unroll : RhumbLine constructor members and GenPosition (series) end to end
+static Reg r_rhpos("rh_pos", [](const Args& a) {
+  double ea = unhx(a[0]), ef = unhx(a[1]), lat1 = unhx(a[2]), lon1 = unhx(a[3]), azi = unhx(a[4]), s12 = unhx(a[5]); bool unroll = a[6] == "1";
+  const Rhumb& R = rh(ea, ef, false);
+  AuxAngle p1(AuxAngle::degrees(lat1)); double sa, ca; Math::sincosd(Math::AngNormalize(azi), sa, ca);
+  std::string op = "rh_pos"; for (int i = 0; i < 7; ++i) op += " " + a[i];
+  current_op() = op + " " + hx(p1.y()) + " " + hx(p1.x()) + " " + hx(sa) + " " + hx(ca);
+  RhumbLine L = R.Line(lat1, lon1, azi);
+  double lat2 = -999, lon2 = -999, S12 = -999; L.GenPosition(s12, M_ALL_DIR | (unroll ? Rhumb::LONG_UNROLL : 0U), lat2, lon2, S12);
+  emit(hx(L._lat1) + " " + hx(L._lon1) + " " + hx(L._azi12) + " " + hx(L._salp) + " " + hx(L._calp) + " " + hx(L._phi1.y()) + " " + hx(L._phi1.x()) + " " + hx(L._mu1) + " " +
+       hx(L._chi1.y()) + " " + hx(L._chi1.x()) + " " + hx(L._psi1) + " " + hx(lat2) + " " + hx(lon2) + " " + hx(S12));
+  if (!(eqn(L.Latitude(), L._lat1) && eqn(L.Longitude(), L._lon1) && eqn(L.Azimuth(), L._azi12) && L.EquatorialRadius() == ea && L.Flattening() == ef))
+    bad("rhumb-line-accessors", "RhumbLine::Latitude/Longitude/Azimuth/EquatorialRadius/Flattening do not return the members");
+  if (std::fabs(lat1) <= 90 && std::isfinite(azi) && !(eqn(L.Latitude(), lat1) && eqn(L.Longitude(), lon1) && std::fabs(L.Azimuth()) <= 180 && std::fabs(std::remainder(L.Azimuth() - azi, 360.0)) <= 0))
+    bad("rhumb-line-accessors", "RhumbLine: Latitude() = " + num(L.Latitude()) + ", Longitude() = " + num(L.Longitude()) + ", Azimuth() = " + num(L.Azimuth()) + " for Line(" + num(lat1) + ", " + num(lon1) + ", " + num(azi) + ")");
+});
+
+// rh_dconv a f auxin auxout lat1 lat2 : DConvert for every ordered pair of auxiliary latitudes on normalized / unnormalized angles;
+// oracle: the divided difference of Convert itself (series) where the quotient is well conditioned in long double
+static Reg r_rhdconv("rh_dconv", [](const Args& a) {
+  double ea = unhx(a[0]), ef = unhx(a[1]); int auxin = std::stoi(a[2]), auxout = std::stoi(a[3]); double y1 = unhx(a[4]), x1 = unhx(a[5]), y2 = unhx(a[6]), x2 = unhx(a[7]);
+  const DAuxLatitude& A = rh(ea, ef, false)._aux;
+  AuxAngle z1(y1, x1), z2(y2, x2);
+  double v = A.DConvert(auxin, auxout, z1, z2); emit(hx(v));
+  if (auxin == auxout) { if (!(v == 1)) bad("dd-convert", "DConvert(aux, aux) = " + num(v) + " (1 expected)"); return; }
+  if (!(std::isfinite(y1) && std::isfinite(x1) && std::isfinite(y2) && std::isfinite(x2))) return;
+  AuxAngle e1(A.Convert(auxin, auxout, z1, false)), e2(A.Convert(auxin, auxout, z2, false));
+  // eta2 - eta1 and zeta2 - zeta1 as angles between the (normalized) points: atan2 of cross and dot products, cancellation-free
+  auto dang = [](const AuxAngle& p, const AuxAngle& q) { AuxAngle P(p.normalized()), Q(q.normalized()); return atan2l((LD)Q.y() * P.x() - (LD)Q.x() * P.y(), (LD)Q.x() * P.x() + (LD)Q.y() * P.y()); };
+  LD dz = dang(z1, z2), de = dang(e1, e2);
+  if (fabsl(dz) < 1e-3L || fabsl(dz) > 3) return;   // the (sin, cos) pairs are rounded: the quotient referees only for well separated angles (the Lean model and the theorem cover the rest)
+  LD ref = de / dz;
+  if (!(std::fabs((double)((LD)v - ref)) <= 64 * EPS / (double)fabsl(dz) * (1 + std::fabs((double)ref)))) bad("dd-convert", "DConvert = " + num(v) + " but (Convert(zeta2) - Convert(zeta1))/(zeta2 - zeta1) = " + num(ref));
+});
+
+// rh_msx a f lat1 lat2 : MeanSinXi (series) on chi_i = Convert(phi -> chi, degrees(lat_i))
+static Reg r_rhmsx("rh_msx", [](const Args& a) {
+  double ea = unhx(a[0]), ef = unhx(a[1]), lat1 = unhx(a[2]), lat2 = unhx(a[3]);
+  const Rhumb& R = rh(ea, ef, false);
+  AuxAngle k1(R._aux.Convert(AuxLatitude::PHI, AuxLatitude::CHI, AuxAngle::degrees(lat1), false)), k2(R._aux.Convert(AuxLatitude::PHI, AuxLatitude::CHI, AuxAngle::degrees(lat2), false));
+  current_op() = "rh_msx " + a[0] + " " + a[1] + " " + hx(k1.y()) + " " + hx(k1.x()) + " " + hx(k2.y()) + " " + hx(k2.x());
+  emit(hx(R.MeanSinXi(k1, k2)));
+});
+
+// rh_api a f exact lat1 lon1 lat2 lon2 azi s12 : every overload and every output mask of both solvers and of the line object:
+// a subset mask writes exactly the requested outputs (the others keep their sentinel) with the values of the full call
+static Reg r_rhapi("rh_api", [](const Args& a) {
+  double ea = unhx(a[0]), ef = unhx(a[1]); bool exact = a[2] == "1"; double lat1 = unhx(a[3]), lon1 = unhx(a[4]), lat2 = unhx(a[5]), lon2 = unhx(a[6]), azi = unhx(a[7]), s12 = unhx(a[8]);
+  const Rhumb& R = rh(ea, ef, exact);
+  const double Z = -987654.25; int nbad = 0; std::string first;
+  auto fail = [&](const std::string& w) { if (!nbad++) first = w; };
+  { // inverse
+    double s, z, S; R.GenInverse(lat1, lon1, lat2, lon2, M_ALL_INV, s, z, S);
+    double s1, z1, S1; R.Inverse(lat1, lon1, lat2, lon2, s1, z1, S1); if (!(eqn(s, s1) && eqn(z, z1) && eqn(S, S1))) fail("Inverse(7) != GenInverse(DISTANCE|AZIMUTH|AREA)");
+    double s2, z2; R.Inverse(lat1, lon1, lat2, lon2, s2, z2); if (!(eqn(s, s2) && eqn(z, z2))) fail("Inverse(6) != GenInverse");
+    { double q1, q2, q3, q4, q5; double s3 = Z, z3 = Z, S3 = Z; R.GenInverse(lat1, lon1, lat2, lon2, M_ALL_INV, s3, z3, q1, q2, q3, q4, S3); (void)q5;
+      if (!(eqn(s, s3) && eqn(z, z3) && eqn(S, S3))) fail("GenInverse (PolygonArea interface) != GenInverse"); }
+    for (unsigned m = 0; m < 8; ++m) {
+      unsigned mask = (m & 1 ? Rhumb::DISTANCE : 0U) | (m & 2 ? Rhumb::AZIMUTH : 0U) | (m & 4 ? Rhumb::AREA : 0U) | (m == 3 ? Rhumb::LATITUDE | Rhumb::LONGITUDE : 0U);
+      double s4 = Z, z4 = Z, S4 = Z; R.GenInverse(lat1, lon1, lat2, lon2, mask, s4, z4, S4);
+      if (!(eqn(s4, m & 1 ? s : Z) && eqn(z4, m & 2 ? z : Z) && eqn(S4, m & 4 ? S : Z))) fail("GenInverse with outmask " + std::to_string(mask) + " writes other values than the full call / other outputs");
+    }
+    { double s5 = Z, z5 = Z, S5 = Z; R.GenInverse(lat1, lon1, lat2, lon2, Rhumb::ALL, s5, z5, S5); if (!(eqn(s, s5) && eqn(z, z5) && eqn(S, S5))) fail("GenInverse(ALL) != GenInverse(DISTANCE|AZIMUTH|AREA)"); }
+  }
+  { // direct and line
+    RhumbLine L = R.Line(lat1, lon1, azi); RhumbLine L2(L); RhumbLine L3(R, lat1, lon1, azi);
+    for (int u = 0; u < 2; ++u) {
+      unsigned U = u ? Rhumb::LONG_UNROLL : 0U;
+      double la, lo, S; R.GenDirect(lat1, lon1, azi, s12, M_ALL_DIR | U, la, lo, S);
+      if (!u) {
+        double la1, lo1, S1; R.Direct(lat1, lon1, azi, s12, la1, lo1, S1); if (!(eqn(la, la1) && eqn(lo, lo1) && eqn(S, S1))) fail("Direct(7) != GenDirect(LATITUDE|LONGITUDE|AREA)");
+        double la2, lo2; R.Direct(lat1, lon1, azi, s12, la2, lo2); if (!(eqn(la, la2) && eqn(lo, lo2))) fail("Direct(6) != GenDirect");
+        double la3, lo3, S3; L.Position(s12, la3, lo3, S3); if (!(eqn(la, la3) && eqn(lo, lo3) && eqn(S, S3))) fail("RhumbLine::Position(4) != Direct");
+        double la4, lo4; L.Position(s12, la4, lo4); if (!(eqn(la, la4) && eqn(lo, lo4))) fail("RhumbLine::Position(3) != Direct");
+        double la5 = Z, lo5 = Z, S5 = Z, q1, q2, q3, q4, q5; R.GenDirect(lat1, lon1, azi, false, s12, M_ALL_DIR, la5, lo5, q1, q2, q3, q4, q5, S5);
+        if (!(eqn(la, la5) && eqn(lo, lo5) && eqn(S, S5))) fail("GenDirect (PolygonArea interface) != GenDirect");
+      }
+      for (const RhumbLine* l : {&L, &L2, &L3}) { double la6, lo6, S6; l->GenPosition(s12, M_ALL_DIR | U, la6, lo6, S6); if (!(eqn(la, la6) && eqn(lo, lo6) && eqn(S, S6))) fail("RhumbLine (Line(), copy, constructor)::GenPosition != GenDirect"); }
+      { double la7 = Z, lo7 = Z, S7 = Z; R.GenDirect(lat1, lon1, azi, s12, Rhumb::ALL | U, la7, lo7, S7); if (!(eqn(la, la7) && eqn(lo, lo7) && eqn(S, S7))) fail("GenDirect(ALL) != GenDirect(LATITUDE|LONGITUDE|AREA)"); }
+      for (unsigned m = 0; m < 8; ++m) {
+        unsigned mask = (m & 1 ? Rhumb::LATITUDE : 0U) | (m & 2 ? Rhumb::LONGITUDE : 0U) | (m & 4 ? Rhumb::AREA : 0U) | (m == 5 ? Rhumb::DISTANCE | Rhumb::AZIMUTH : 0U) | U;
+        double la8 = Z, lo8 = Z, S8 = Z; R.GenDirect(lat1, lon1, azi, s12, mask, la8, lo8, S8);
+        double la9 = Z, lo9 = Z, S9 = Z; L.GenPosition(s12, mask, la9, lo9, S9);
+        if (!(eqn(la8, m & 1 ? la : Z) && eqn(lo8, m & 2 ? lo : Z) && eqn(S8, m & 4 ? S : Z))) fail("GenDirect with outmask " + std::to_string(mask) + " writes other values than the full call / other outputs");
+        if (!(eqn(la9, la8) && eqn(lo9, lo8) && eqn(S9, S8))) fail("GenPosition with outmask " + std::to_string(mask) + " != GenDirect");
+      }
+      // LONG_UNROLL: lon2 - lon1 is the longitude swept; without it the same direction reduced to [-180, 180]
+      if (u && std::isfinite(lo) && std::isfinite(lon1)) { double la0, lo0, S0; R.GenDirect(lat1, lon1, azi, s12, M_ALL_DIR, la0, lo0, S0);
+        if (!(std::fabs(lo0) <= 180)) fail("lon2 outside [-180, 180] without LONG_UNROLL");
+        if (!(std::fabs(std::remainder(lo - lo0, 360.0)) <= 4 * ulp(std::fabs(lon1) + std::fabs(lo) + 360) && eqn(S, S0) && eqn(la, la0))) /* lon1 + lon2x is rounded at the magnitude of lon1 */ fail("LONG_UNROLL changes more than the representation of lon2: " + num(lo) + " vs " + num(lo0)); }
+    }
+  }
+  emit(std::to_string(nbad));
+  if (nbad) bad("rhumb-api", std::to_string(nbad) + " interface disagreements, first: " + first);
+});
+
+// ---- tools/RhumbSolve ------------------------------------------------------------------------------------------------
+static int run_rhumbsolve(const std::vector<std::string>& args, const std::string& input, std::string& output) {
+  std::vector<const char*> argv; argv.push_back("RhumbSolve"); for (auto& s : args) argv.push_back(s.c_str());
+  std::istringstream in(input); std::ostringstream out, err;
+  std::streambuf *oi = std::cin.rdbuf(in.rdbuf()), *oo = std::cout.rdbuf(out.rdbuf()), *oe = std::cerr.rdbuf(err.rdbuf()); std::cin.clear();
+  int rc = -99; try { rc = tool_rhumbsolve::main(int(argv.size()), argv.data()); } catch (...) { rc = -98; }
+  std::cin.rdbuf(oi); std::cout.rdbuf(oo); std::cerr.rdbuf(oe); std::cin.clear(); std::cout.clear(); std::cerr.clear();
+  output = out.str(); return rc;
+}
+static std::string g17(double x) { char b[40]; std::snprintf(b, sizeof b, "%.17g", x); return b; }
+static double snap(double x) { return std::ldexp(std::nearbyint(std::ldexp(x, 20)), -20); }   // multiples of 2^-20: written exactly in fixed notation
+static std::string f20(double x) { char b[80]; std::snprintf(b, sizeof b, "%.20f", x); return b; }
+static bool pclose(double printed, double ref, double absres) { return (std::isnan(printed) && std::isnan(ref)) || std::fabs(printed - ref) <= absres + 4 * ulp(ref); }
+// rh_solve variant a f lat1 lon1 lat2 lon2 azi s12 : variant bits: 1 = -E, 2 = -u, 4|8 = mode (0 direct, 4 inverse -i, 8 line -L), 16 = a malformed line in between
+// three input lines (the case, the case again, a second case) => exactly one output line per input line, each the library's answer at -p 10
+static Reg r_rhsolve("rh_solve", [](const Args& a) {
+  int variant = std::atoi(a[0].c_str()); double ea = unhx(a[1]), ef = unhx(a[2]);
+  double lat1 = snap(unhx(a[3])), lon1 = snap(unhx(a[4])), lat2 = snap(unhx(a[5])), lon2 = snap(unhx(a[6])), azi = snap(unhx(a[7])), s12 = snap(unhx(a[8]));
+  bool exact = variant & 1, unroll = variant & 2, inverse = variant & 4, line = variant & 8, junk = variant & 16;
+  std::vector<std::string> args = {"-e", g17(ea), g17(ef), "-p", "10"};
+  if (exact) args.push_back("-E"); if (unroll) args.push_back("-u");
+  if (inverse) args.push_back("-i");
+  if (line) { args.push_back("-L"); args.push_back(f20(lat1)); args.push_back(f20(lon1)); args.push_back(f20(azi)); }
+  struct Case { double lat1, lon1, lat2, lon2, azi, s12; };
+  std::vector<Case> cs = {{lat1, lon1, lat2, lon2, azi, s12}, {lat1, lon1, lat2, lon2, azi, s12}, {line ? lat1 : snap(lat1 / 2), line ? lon1 : snap(lon1 + 10), snap(-lat2), lon2, line ? azi : snap(azi + 45), snap(s12 / 3)}};
+  std::string input; std::vector<int> kind;   // kind: index into cs, or -1 for the malformed line
+  for (size_t i = 0; i < cs.size(); ++i) {
+    const Case& c = cs[i];
+    if (junk && i == 1) { input += (inverse ? "1 2 3\n" : line ? "1 2\n" : "10 20 30 40 50\n"); kind.push_back(-1); }
+    input += line ? f20(c.s12) + "\n" : inverse ? f20(c.lat1) + " " + f20(c.lon1) + " " + f20(c.lat2) + " " + f20(c.lon2) + "\n" : f20(c.lat1) + " " + f20(c.lon1) + " " + f20(c.azi) + " " + f20(c.s12) + "\n";
+    kind.push_back(int(i));
+  }
+  std::string out; int rc = run_rhumbsolve(args, input, out);
+  const Rhumb& R = rh(ea, ef, exact);
+  std::vector<std::string> lines; { std::istringstream is(out); std::string t; while (std::getline(is, t)) lines.push_back(t); }
+  emit(std::to_string(rc) + " " + std::to_string(lines.size()));
+  if (rc != (junk ? 1 : 0)) { bad("rhumbsolve-status", "RhumbSolve exits with " + std::to_string(rc) + (junk ? " although a line was malformed: " : " on valid lines: ") + out.substr(0, 80)); return; }
+  if (lines.size() != kind.size()) { bad("rhumbsolve-lines", "RhumbSolve prints " + std::to_string(lines.size()) + " lines for " + std::to_string(kind.size()) + " input lines"); return; }
+  for (size_t i = 0; i < lines.size(); ++i) {
+    if (kind[i] < 0) { if (lines[i].compare(0, 6, "ERROR:") != 0) bad("rhumbsolve-lines", "malformed input line " + std::to_string(i) + " is answered by: " + lines[i].substr(0, 80)); continue; }
+    const Case& c = cs[kind[i]];
+    std::vector<double> v; { std::istringstream is(lines[i]); std::string t; while (is >> t) { try { v.push_back(Utility::val<double>(t)); } catch (...) { v.push_back(-7e77); } } }
+    if (v.size() != 3) { bad("rhumbsolve-fields", "RhumbSolve prints " + std::to_string(v.size()) + " fields: " + lines[i].substr(0, 120)); continue; }
+    if (inverse) {
+      double s, z, S; R.Inverse(c.lat1, c.lon1, c.lat2, c.lon2, s, z, S);
+      if (!(pclose(v[0], z, 1e-15) || std::fabs(std::remainder(v[0] - z, 360.0)) <= 1e-14) || !pclose(v[1], s, 1e-10) || !pclose(v[2], S, 1e-3))
+        bad("rhumbsolve-inverse", "line " + std::to_string(i) + ": RhumbSolve -i prints " + lines[i] + ", the library returns " + g17(z) + " " + g17(s) + " " + g17(S));
+    } else {
+      double la, lo, S; R.GenDirect(c.lat1, c.lon1, c.azi, c.s12, Rhumb::ALL | (unroll ? Rhumb::LONG_UNROLL : 0U), la, lo, S);
+      if (!pclose(v[0], la, 1e-15) || !(pclose(v[1], lo, 1e-15) || (!unroll && std::fabs(std::remainder(v[1] - lo, 360.0)) <= 1e-14)) || !pclose(v[2], S, 1e-3))
+        bad(line ? "rhumbsolve-line" : "rhumbsolve-direct", "line " + std::to_string(i) + ": RhumbSolve prints " + lines[i] + ", the library returns " + g17(la) + " " + g17(lo) + " " + g17(S));
+    }
+  }
+});
+
+// ---- exact path: Carlson kernels, DE, DRectifying, exact GenInverse / GenPosition around their kernels (Model/RhumbExact.lean) ----
+#include <GeographicLib/EllipticFunction.hpp>
+static Reg r_rhcarlson("rh_carlson", [](const Args& a) {
+  double x = unhx(a[0]), y = unhx(a[1]), z = unhx(a[2]);
+  emit(hx(EllipticFunction::RF(x, y, z)) + " " + hx(EllipticFunction::RD(x, y, z)));
+});
+static std::string hxa(const AuxAngle& p) { return hx(p.y()) + " " + hx(p.x()); }
+// rh_de a f lat1 lat2 : DE on the parametric latitudes of two geographic latitudes (as DRectifying calls it); oracle: the
+// divided difference of the elliptic integral int sqrt(1 + e'^2 sin^2) by quadrature over the interval itself
+static Reg r_rhde("rh_de", [](const Args& a) {
+  double ea = unhx(a[0]), ef = unhx(a[1]), lat1 = unhx(a[2]), lat2 = unhx(a[3]);
+  const DAuxLatitude& A = rh(ea, ef, true)._aux;
+  AuxAngle b1(A.Parametric(AuxAngle::degrees(lat1))), b2(A.Parametric(AuxAngle::degrees(lat2)));
+  current_op() = "rh_de " + a[0] + " " + a[1] + " " + hxa(b1) + " " + hxa(b2);
+  double v = A.DE(b1, b2); emit(hx(v));
+  if (!(std::fabs(lat1) < 90 && std::fabs(lat2) < 90 && lat1 != lat2 && lat1 * lat2 > 0)) return;   // stipulated by DE: distinct, same sign, not 0 / 90
+  const rho::Ell& E = el(ea, ef); LD e12 = E.e2 / (1 - E.e2);
+  LD x = atan2l(fabsl((LD)b1.y()), (LD)b1.x()), y = atan2l(fabsl((LD)b2.y()), (LD)b2.x());
+  if (fabsl(y - x) < 1e-6L) return;   // the angles come from rounded (sin, cos) pairs: the quotient referees only for separated angles (Lean model otherwise)
+  LD ref = rho::integrate([&](LD t) { LD s = sinl(t); return sqrtl(1 + e12 * s * s); }, x, y) / (y - x);
+  // what the rhumb solvers need of DE (through DRectifying = b DE / R_mu x DParametric): the length tolerance over a course of up to half a turn of
+  // longitude, as for op dde (near a pole lengths shrink with cos(phi) and so does the required relative accuracy; cos((x+y)/2) loses it there)
+  LD s1_, c1_, s2_, c2_; rho::scd(lat1, s1_, c1_); rho::scd(lat2, s2_, c2_);
+  double need = tol_len(ea, 0) / (double)(E.Rmu * (rho::PI * std::max(c1_, c2_) + fabsl((LD)lat2 - (LD)lat1) * rho::DEG));
+  if (!(std::fabs((double)((LD)v - ref)) <= (64 * EPS + need) * std::fabs((double)ref))) bad("dd-elliptic", "DE = " + num(v) + " but (E(y) - E(x))/(y - x) by quadrature = " + num(ref));
+});
+static Reg r_rhdrect("rh_drect", [](const Args& a) {
+  double ea = unhx(a[0]), ef = unhx(a[1]), lat1 = unhx(a[2]), lat2 = unhx(a[3]);
+  const DAuxLatitude& A = rh(ea, ef, true)._aux;
+  AuxAngle p1(AuxAngle::degrees(lat1)), p2(AuxAngle::degrees(lat2)); double d1;
+  AuxAngle m1(A.Rectifying(p1, &d1)), m2(A.Rectifying(p2));
+  current_op() = "rh_drect " + a[0] + " " + a[1] + " " + hxa(p1) + " " + hxa(p2) + " " + hxa(m1) + " " + hx(d1) + " " + hxa(m2) + " " + hx(A.RectifyingRadius(true));
+  emit(hx(A.DRectifying(p1, p2)));
+});
+// the kernel values of the exact solvers for two geographic latitudes given as AuxAngles (same calls as GenInverse / MeanSinXi / DRectifying make)
+static std::string xkernels(const Rhumb& R, const AuxAngle& p1, const AuxAngle& p2, const AuxAngle& k1, const AuxAngle& k2) {
+  const DAuxLatitude& A = R._aux;
+  AuxAngle px(A.Convert(AuxLatitude::CHI, AuxLatitude::PHI, k1, true)), py(A.Convert(AuxLatitude::CHI, AuxLatitude::PHI, k2, true));
+  double d1; AuxAngle m1(A.Rectifying(p1, &d1)), m2(A.Rectifying(p2));
+  std::string o = hxa(p1) + " " + hxa(p2) + " " + hxa(k1) + " " + hxa(k2) + " " + hxa(px) + " " + hxa(py) + " " + hxa(m1) + " " + hx(d1) + " " + hxa(m2) + " " + hx(A.RectifyingRadius(true)) + " " + hx(R._rm) + " " + hx(R._c2);
+  for (int l = 0; l < R._lL; ++l) o += " " + hx(R._pP[l]);
+  return o;
+}
+static Reg r_rhxinv("rh_xinv", [](const Args& a) {
+  double ea = unhx(a[0]), ef = unhx(a[1]), lat1 = unhx(a[2]), lon1 = unhx(a[3]), lat2 = unhx(a[4]), lon2 = unhx(a[5]);
+  const Rhumb& R = rh(ea, ef, true);
+  AuxAngle p1(AuxAngle::degrees(lat1)), p2(AuxAngle::degrees(lat2)), k1(R._aux.Convert(AuxLatitude::PHI, AuxLatitude::CHI, p1, true)), k2(R._aux.Convert(AuxLatitude::PHI, AuxLatitude::CHI, p2, true));
+  std::string op = "rh_xinv"; for (int i = 0; i < 6; ++i) op += " " + a[i];
+  current_op() = op + " " + xkernels(R, p1, p2, k1, k2);
+  double s12 = -999, azi12 = -999, S12 = -999; R.GenInverse(lat1, lon1, lat2, lon2, M_ALL_INV, s12, azi12, S12);
+  emit(hx(s12) + " " + hx(azi12) + " " + hx(S12));
+});
+static Reg r_rhxpos("rh_xpos", [](const Args& a) {
+  double ea = unhx(a[0]), ef = unhx(a[1]), lat1 = unhx(a[2]), lon1 = unhx(a[3]), azi = unhx(a[4]), s12 = unhx(a[5]); bool unroll = a[6] == "1";
+  const Rhumb& R = rh(ea, ef, true);
+  RhumbLine L = R.Line(lat1, lon1, azi);
+  double r12 = s12 / (R._rm * Math::degree()), mu2 = L._mu1 + r12 * L._calp;
+  std::string op = "rh_xpos"; for (int i = 0; i < 7; ++i) op += " " + a[i];
+  op += " " + hx(L._mu1) + " " + hx(L._salp) + " " + hx(L._calp) + " " + hx(mu2);
+  if (std::fabs(mu2) <= 90) {
+    AuxAngle p2(R._aux.Convert(AuxLatitude::MU, AuxLatitude::PHI, AuxAngle::degrees(mu2), true)), k2(R._aux.Convert(AuxLatitude::PHI, AuxLatitude::CHI, p2, true));
+    op += " " + xkernels(R, L._phi1, p2, L._chi1, k2);
+  } else op += " " + xkernels(R, L._phi1, L._phi1, L._chi1, L._chi1);
+  current_op() = op;
+  double lat2 = -999, lon2 = -999, S12 = -999; L.GenPosition(s12, M_ALL_DIR | (unroll ? Rhumb::LONG_UNROLL : 0U), lat2, lon2, S12);
+  emit(hx(lat2) + " " + hx(lon2) + " " + hx(S12));
+});
+
+// rh_datanhee a f x y : DAuxLatitude::Datanhee (divided difference of atanh(e sin phi)/e with respect to tan phi) against the RE model and,
+// where the quotient is well conditioned in long double, against the defining quotient / the derivative at x == y
+static Reg r_rhdatanhee("rh_datanhee", [](const Args& a) {
+  double ea = unhx(a[0]), ef = unhx(a[1]), x = unhx(a[2]), y = unhx(a[3]);
+  const DAuxLatitude& A = rh(ea, ef, true)._aux;
+  double v = A.Datanhee(x, y); emit(hx(v));
+  if (!(std::isfinite(x) && std::isfinite(y))) return;
+  const rho::Ell& E = el(ea, ef);
+  auto G = [&](LD t) { return E.atanhee(t / hypotl(1, t)); };
+  LD X = x, Y = y, ref;
+  if (x == y) { LD sc = hypotl(1, X), s = X / sc; ref = 1 / ((1 - E.e2 * s * s) * sc * sc * sc); }   // d/dt atanh(e sn t)/e = sn'(t)/(1 - e^2 sn^2)
+  else { LD gx = G(X), gy = G(Y); LD cond = (fabsl(gx) + fabsl(gy)) / fabsl(gy - gx); if (!(cond < 1e3L)) { stat("dd-illconditioned-skipped"); return; } ref = (gy - gx) / (Y - X); }
+  if (!std::isfinite((double)ref)) return;
+  if (!(std::fabs((double)((LD)v - ref)) <= 64 * EPS * std::fabs((double)ref) + 1e-300)) bad("dd-kernel", "Datanhee = " + num(v) + " but the divided difference of atanh(e sin phi)/e is " + num(ref));
+});
+
 // ---- generators -------------------------------------------------------------------------------------------------
 static double pw(Rng& r, int lo, int hi) { return std::pow(10.0, r.range(lo, hi)); }
 void gv::generate(const std::string& tier, uint64_t seed) {
   Rng r(seed * 9176 + 11);
-  long n = tier == "thorough" ? 6000 : 700;
+  long n = tier == "thorough" ? 15000 : 900;
   struct EF { double a, f; int modes; };   // modes: 1 series, 2 exact, 3 both
   std::vector<EF> ell = {{aW, fW, 3}, {aW, fW, 3}, {aW, 0, 3}, {6.4e6, 0.001, 3}, {6.4e6, -0.001, 3}, {6.4e6, 0.01, 3}, {6.4e6, -0.01, 3}, {6.4e6, 0.1, 2}, {6.4e6, -0.1, 2}, {1, 1 / 150.0, 3}, {6378137, -1 / 298.257223563, 3}};
   auto H = [](double x) { return hx(x); };
@@ -396,11 +681,13 @@ void gv::generate(const std::string& tier, uint64_t seed) {
     switch (r.irange(0, 5)) { case 0: return r.range(-180, 180); case 1: return r.pick(std::vector<double>{0, 180, -180, 90, 360, 540, -540, 720});
     case 2: return r.range(-1, 1) * pw(r, 3, 15); case 3: return 360.0 * r.irange(-1000, 1000) + r.range(-180, 180); default: return r.range(-180, 180); }
   };
+  for (const EF& e0 : ell) if (e0.modes != 2) { run("rh_const", {H(e0.a), H(e0.f)}); stratum("model-const"); }
+  for (double f0 : {0.0033, -0.0033, 1e-9, 0.006, -0.009}) { run("rh_const", {H(6.4e6 * (1 + f0)), H(f0)}); stratum("model-const"); }
   for (long i = 0; i < n; ++i) {
     EF e = r.pick(ell); bool exact = e.modes == 2 ? true : (e.modes == 1 ? false : r.coin());
     std::string A = H(e.a), F = H(e.f), X = exact ? "1" : "0";
     // ---------- inverse strata
-    { int k = r.irange(0, 9); double lat1, lon1 = lon_gen(), lat2, lon2; std::string sn;
+    { int k = r.irange(0, 11); double lat1, lon1 = lon_gen(), lat2, lon2; std::string sn;
       switch (k) {
       case 0: lat1 = lat_gen(0); lat2 = lat_gen(0); lon2 = lon1 + r.range(-180, 180); sn = "inv-uniform"; break;
       case 1: { lat1 = lat_gen(r.irange(0, 4)); double dm_ = pw(r, -12, 0) * (r.coin() ? 1 : -1); lat2 = lat1 + dm_ / 111e3; if (r.irange(0, 3) == 0) lat2 = r.coin() ? nextup(lat1, r.irange(1, 4)) : nextdn(lat1, r.irange(1, 4));
@@ -412,9 +699,20 @@ void gv::generate(const std::string& tier, uint64_t seed) {
       case 6: lat1 = lat_gen(0); lat2 = lat_gen(0); lon2 = r.coin() ? lon1 : lon1 + (r.coin() ? 1 : -1) * pw(r, -14, -3); sn = "inv-meridional"; break;
       case 7: lat1 = lat_gen(3); lat2 = lat_gen(3); lon2 = lon1 + r.range(-180, 180); sn = "inv-special-lat"; break;
       case 8: lat1 = lat_gen(0); lat2 = -lat1 * (r.coin() ? 1 : 1 + r.range(-1, 1) * 1e-9); lon2 = lon1 + r.range(-180, 180); sn = "inv-opposite-lat"; break;
+      case 10: { double s_ = r.coin() ? 1 : -1; lat1 = s_ * r.range(30, 89.9); lat2 = -s_ * r.range(std::max(1.0, 90.5 - std::fabs(lat1)), 89.9); lon2 = lon1 + r.range(-180, 180);   // opposite hemispheres, |lat1| + |lat2| > 90: tan(chi1) tan(chi2) < -1
+                 sn = "inv-opposite-hemi-sum-gt-90"; break; }
+      case 11: { lat1 = (r.coin() ? 1 : -1) * (r.coin() ? r.range(45, 89.99) : r.range(0, 45)); lat2 = lat1; lon2 = lon1 + (r.coin() ? 1 : -1) * (r.irange(0, 3) ? r.range(0, 180) : 180 * pw(r, -12, 0));   // azi = +-90 exactly, high and low latitude
+                 sn = "inv-parallel-hi-lo"; break; }
       default: lat1 = r.range(-80, 80); lat2 = lat1 + r.range(-1, 1) * pw(r, -9, -1); if (std::fabs(lat2) > 90) lat2 = lat1; lon1 = r.range(-180, 180); lon2 = lon1 + r.range(-1, 1) * pw(r, -9, 0); sn = "inv-short"; break;
       }
       run("rinv", {A, F, X, H(lat1), H(lon1), H(lat2), H(lon2)}); stratum(sn); if (i < 2) sample(current_op());
+      if (e.modes != 2) { run("rh_inv", {A, F, H(lat1), H(lon1), H(lat2), H(lon2)}); stratum("model-" + sn); }
+      if (e.modes != 1 && (exact || i % 2 == 0)) { run("rh_xinv", {A, F, H(lat1), H(lon1), H(lat2), H(lon2)}); stratum("xmodel-" + sn); }
+      if (i % 3 == 0) { run("rh_api", {A, F, X, H(lat1), H(lon1), H(lat2), H(lon2), H(r.range(-180, 180) + 360 * r.irange(-1, 1)), H(r.range(-3e7, 3e7) * e.a / aW)}); stratum("api-" + sn); }
+      if (i % 4 == 1 && std::fabs(lat1) <= 90 && std::fabs(lat2) <= 90 && std::fabs(lon1) < 1e6) {
+        int variant = (exact ? 1 : 0) | (r.coin() ? 2 : 0) | (r.pick(std::vector<int>{0, 4, 8})) | (r.irange(0, 3) == 0 ? 16 : 0);
+        run("rh_solve", {std::to_string(variant), A, F, H(lat1), H(lon1), H(lat2), H(lon1 + r.range(-180, 180)), H(r.range(-180, 180)), H(r.range(-2e7, 2e7) * e.a / aW)}); stratum("rhumbsolve-" + std::to_string(variant & 12)); }
+      if (e.modes != 2 && std::fabs(lat1) <= 90 && std::fabs(lat2) <= 90) { run("rh_msx", {A, F, H(lat1), H(lat2)}); stratum("model-msx"); }
     }
     // ---------- direct strata
     { int k = r.irange(0, 8); double lat1 = lat_gen(r.irange(0, 5)), lon1 = lon_gen(), azi, s12; std::string sn; const rho::Ell& E = el(e.a, e.f); double Q = (double)E.Q;
@@ -432,7 +730,10 @@ void gv::generate(const std::string& tier, uint64_t seed) {
       case 7: azi = (r.coin() ? 90 : -90) + r.range(-1, 1) * 1e-3; s12 = r.range(-1, 1) * 4e7 * r.irange(1, 20) * e.a / aW; sn = "dir-many-circuits-ew"; break;
       default: azi = r.range(-180, 180) + 360 * r.irange(-3, 3); s12 = r.range(-1e7, 1e7) * e.a / aW; sn = "dir-azi-unreduced"; break;
       }
-      run("rdir", {A, F, X, H(lat1), H(lon1), H(azi), H(s12), r.irange(0, 2) ? "1" : "0"}); stratum(sn); if (i < 2) sample(current_op());
+      std::string U = r.irange(0, 2) ? "1" : "0";
+      run("rdir", {A, F, X, H(lat1), H(lon1), H(azi), H(s12), U}); stratum(sn); if (i < 2) sample(current_op());
+      if (e.modes != 2) { run("rh_pos", {A, F, H(lat1), H(lon1), H(azi), H(s12), U}); stratum("model-" + sn); }
+      if (e.modes != 1 && (exact || i % 2 == 0)) { run("rh_xpos", {A, F, H(lat1), H(lon1), H(azi), H(s12), U}); stratum("xmodel-" + sn); }
     }
     // ---------- divided-difference kernels
     for (int rep = 0; rep < 4; ++rep) {
@@ -442,15 +743,29 @@ void gv::generate(const std::string& tier, uint64_t seed) {
       switch (k) { case 0: y = x; break; case 1: y = nextup(x, r.irange(1, 3)); break; case 2: y = x * (1 + r.range(-1, 1) * pw(r, -15, -1)); break; case 3: y = -x * r.range(0.5, 2); break; case 4: y = x + r.range(-1, 1) * pw(r, -12, 0); break; default: y = tg(); }
       if (fn == 6) { x = std::atan(x); y = std::atan(y); }
       run("dd", {std::to_string(fn), H(x), H(y)}); stratum("dd-" + std::to_string(fn));
+      if (rep == 0 && fn != 6) { run("rh_datanhee", {A, F, H(x), H(y)}); stratum("dd-datanhee"); }
     }
     { int K = r.irange(0, 8); std::vector<std::string> av = {r.coin() ? "1" : "0", r.irange(0, 3) ? "0" : "1"}; double z1 = r.range(-1.6, 1.6), z2;
       switch (r.irange(0, 3)) { case 0: z2 = z1; break; case 1: z2 = z1 + r.range(-1, 1) * pw(r, -12, 0); break; case 2: z2 = -z1; break; default: z2 = r.range(-1.6, 1.6); }
       av.push_back(H(z1)); av.push_back(H(z2)); for (int k = 0; k < K; ++k) av.push_back(H(r.range(-1, 1) * std::pow(e.f / (2 - e.f) + 0.3 * r.coin(), k + 1)));
       run("dcl", av); stratum("dcl"); }
+    if (e.modes != 2) { // DConvert: every ordered pair of auxiliary latitudes; equal / ulp apart / nearby / mirrored / independent angles; unnormalized points
+      int auxin = r.irange(0, 5), auxout = r.irange(0, 5); double z1 = lat_gen(r.irange(0, 5)), z2; int k = r.irange(0, 4);
+      switch (k) { case 0: z2 = z1; break; case 1: z2 = z1 + r.range(-1, 1) * pw(r, -13, 0); break; case 2: z2 = r.coin() ? nextup(z1) : nextdn(z1); break; case 3: z2 = -z1 * r.range(0.5, 1.5); break; default: z2 = lat_gen(r.irange(0, 5)); }
+      if (std::fabs(z2) > 90) z2 = z1;
+      AuxAngle p1(AuxAngle::degrees(z1)), p2(AuxAngle::degrees(z2)); double sc1 = r.irange(0, 3) ? 1 : pw(r, -3, 3), sc2 = r.irange(0, 3) ? 1 : pw(r, -3, 3);
+      run("rh_dconv", {A, F, std::to_string(auxin), std::to_string(auxout), H(p1.y() * sc1), H(p1.x() * sc1), H(p2.y() * sc2), H(p2.x() * sc2)}); stratum("model-dconvert-" + std::to_string(k)); }
     { int fn = r.irange(0, 2); double lat1 = lat_gen(r.irange(0, 5)), lat2; int k = r.irange(0, 4);
       switch (k) { case 0: lat2 = lat1; break; case 1: lat2 = lat1 + r.range(-1, 1) * pw(r, -13, 0); break; case 2: lat2 = r.coin() ? nextup(lat1) : nextdn(lat1); break; case 3: lat2 = -lat1 * r.range(0.5, 1.5); break; default: lat2 = lat_gen(r.irange(0, 5)); }
       if (std::fabs(lat2) > 90) lat2 = lat1;
-      run("dde", {A, F, std::to_string(fn), H(lat1), H(lat2)}); stratum("dde-" + std::to_string(fn)); }
+      run("dde", {A, F, std::to_string(fn), H(lat1), H(lat2)}); stratum("dde-" + std::to_string(fn));
+      if (e.modes != 1) { run("rh_drect", {A, F, H(lat1), H(lat2)}); stratum("xmodel-drectifying-" + std::to_string(k));
+        double l2 = lat2; if (k == 3) l2 = -lat2;   // DE stipulates the same sign
+        if (lat1 != l2 && lat1 * l2 > 0 && std::fabs(lat1) < 90 && std::fabs(l2) < 90) { run("rh_de", {A, F, H(lat1), H(l2)}); stratum("xmodel-de-" + std::to_string(k)); } }
+      { // Carlson RF(x, y, 1), RD(x, y, 1) on the argument shapes of DE / Rectifying: x in [0, 1], y in [1 - k2, 1] or beyond; and general positive triples
+        double x = r.coin() ? r.range(0, 1) : pw(r, -12, 0), y = 1 + r.range(-0.9, 1) * (r.coin() ? 1 : pw(r, -6, 0)), z = r.irange(0, 2) ? 1 : pw(r, -2, 2);
+        if (r.irange(0, 9) == 0) x = 0;
+        run("rh_carlson", {H(x), H(y), H(z)}); stratum("xmodel-carlson"); } }
   }
 }
 int main(int argc, char** argv) { return gv::main_(argc, argv); }
